@@ -120,6 +120,11 @@ PURE_EXTERNAL = {
     "re.compile": re.compile, "re.sub": re.sub, "re.findall": re.findall, "re.search": re.search, "re.match": re.match, "re.fullmatch": re.fullmatch,
     "copy.copy": lambda x: x.copy() if hasattr(x, "copy") else x,
     "unicodedata.category": unicodedata.category,
+    "fnmatch.filter": lambda names, pat: __import__("fnmatch").filter(list(names), pat),
+    "fnmatch.fnmatch": lambda n, pat: __import__("fnmatch").fnmatch(n, pat),
+    "fnmatch.fnmatchcase": lambda n, pat: __import__("fnmatch").fnmatchcase(n, pat),
+    "fnmatch.translate": lambda pat: __import__("fnmatch").translate(pat),
+    "re.escape": re.escape,
     "collections.ChainMap": ChainMap,
     "os.path.isabs": os.path.isabs,
     "os.path.normpath": lambda p: tok("norm:" + p) if "⟦" in p else os.path.normpath(p),
@@ -689,12 +694,49 @@ class PureInterp:
         if isinstance(f, ClassInfo):
             if "construct" in self.hooks:
                 return self.hooks["construct"](f, args, kwargs)
-            return Obj(f.name, _args=tuple(args), _kwargs=dict(kwargs), **{"__class__": f})
+            o = Obj(f.name, _args=tuple(args), _kwargs=dict(kwargs), **{"__class__": f})
+            init = self.index.method(f, "__init__")
+            if init is not None:
+                self.call(init, args, kwargs, self_obj=o, depth=depth + 1)
+            else:
+                self._bind_fields(o, f, args, kwargs)
+            return o
         if isinstance(f, tuple) and f and f[0] == "lambda":
             lam = f[1]
             e = dict(zip([a.arg for a in lam.args.args], args))
             return self.eval(lam.body, e, f[2], depth)
         raise Unsupported(f"call of {type(f).__name__}")
+
+    def _bind_fields(self, o, cls, args, kwargs):
+        """attrs/dataclass-style construction: positional and keyword arguments bind the declared fields in order; defaults/factories fill the rest."""
+        pos = list(args)
+        for name, _ann, value in cls.fields:
+            init = True
+            default = Ellipsis
+            if isinstance(value, ast.Call):
+                for k in value.keywords:
+                    if k.arg == "init" and isinstance(k.value, ast.Constant) and k.value.value is False:
+                        init = False
+                    if k.arg == "default":
+                        try:
+                            default = self.eval(k.value, {}, cls.module)
+                        except (Unsupported, Raised, CantEval):
+                            default = Ellipsis
+                    if k.arg == "factory":
+                        fn = dotted(k.value)
+                        default = {"dict": dict, "list": list, "set": set}.get(fn, lambda: None)()
+            elif value is not None:
+                try:
+                    default = self.eval(value, {}, cls.module)
+                except (Unsupported, Raised, CantEval):
+                    default = Ellipsis
+            arg = name.lstrip("_")
+            if init and pos:
+                setattr(o, name, pos.pop(0))
+            elif init and arg in kwargs:
+                setattr(o, name, kwargs[arg])
+            elif default is not Ellipsis:
+                setattr(o, name, default)
 
     def e_Lambda(self, n, env, module, depth):
         return ("lambda", n, module)
